@@ -43,6 +43,12 @@ class _TBytes(Ty):
     def wrap(self, terms): return VBytes(terms[0])
 
 
+class _TChunks(Ty):
+    """a list of byte strings, abstracted to its concatenation (the wire image)"""
+    def comps(self): return [('', StringSort)]
+    def wrap(self, terms): return VChunks(terms[0])
+
+
 class _TNone(Ty):
     def comps(self): return []
     def wrap(self, terms): return VNone()
@@ -62,6 +68,7 @@ class _TDyn(Ty):
 
 
 INT, BOOL, STR, BYTES, NONE, OPAQUE, DYN = _TInt(), _TBool(), _TStr(), _TBytes(), _TNone(), _TOpaque(), _TDyn()
+CHUNKS = _TChunks()
 
 
 class Ref(Ty):
@@ -329,6 +336,19 @@ class VDictView(V):
     """d.keys() / d.values() / d.items() of a symbolic dict (optionally through sorted()/list())."""
     def __init__(self, d, kind, is_sorted=False):
         self.d, self.kind, self.is_sorted = d, kind, is_sorted
+
+
+class VZip(V):
+    """zip(<symbolic lists>): iterated index-wise up to the shortest"""
+    def __init__(self, lists):
+        self.lists = lists
+        self.seqs = lists[0].seqs
+
+    def length(self):
+        n = self.lists[0].length()
+        for l in self.lists[1:]:
+            n = z3.If(l.length() < n, l.length(), n)
+        return n
 
 
 class VEnum(V):
